@@ -755,7 +755,7 @@ func (g *G) Steps(label string, maxSteps int) []Step {
 				st.Hooks = append(st.Hooks, g.Hook(hid, label+".h"))
 			}
 		case "level":
-			st.Level = rapid.SampledFrom([]int{-1, -1, 0, 0, 1, -5, 3}).Draw(t, label+".lvl")
+			st.Level = rapid.SampledFrom([]int{-1, -1, 0, 0, 1, -5, 3, 7, 7, 6, 5}).Draw(t, label+".lvl")
 		case "sample":
 			st.Sampler = rapid.SampledFrom([]string{"all", "all", "all", "basic"}).Draw(t, label+".smp")
 			st.N = uint32(rapid.IntRange(1, 2).Draw(t, label+".smpn"))
